@@ -74,8 +74,14 @@ def run(tier, seed):
     walks = int(os.environ.get("VERIF_WALKS", 150 if quick else 1500))
     repeat = 2 if quick else 3      # the implementation iterates Go maps when it re-merges classes
     vdrive = common.build_harness()
-    rows, g = gen.bfs(SPEC, "Clos", "Clos.cfg", {"MaxOps": depth}, timeout=3000)
+    # (the deepest level of the thorough tier without methods: with them the graph of depth 4 has millions of transitions; the
+    #  histories with methods are those of depth 3, of the two-class world and of the fixed shapes)
+    rows, g = gen.bfs(SPEC, "Clos", "Clos.cfg", {"MaxOps": depth, "WithMeth": "TRUE" if quick else "FALSE"}, timeout=3000)
     stimuli = to_stim(rows)
+    if not quick:
+        rows, _g = gen.bfs(SPEC, "Clos", "Clos.cfg", {"MaxOps": depth - 1}, timeout=3000)
+        have = {json.dumps(st["ops"], sort_keys=True) for st in stimuli}
+        stimuli += [st for st in to_stim(rows) if json.dumps(st["ops"], sort_keys=True) not in have]
     # the complete state graph of the two-class world (every transition, no depth bound in effect)
     rows, g0 = gen.bfs(SPEC, "Clos", "Clos.cfg", {"MaxOps": 9, "NC": 2}, timeout=3000)
     stimuli += to_stim(rows)
